@@ -369,12 +369,12 @@ package dbft
 
 //@ func (*Context).CountCommitted
 //@   requires wf()
-//@   loop 1: invariant 0 <= count && count <= i
+//@   loop 1: invariant 0 <= count && count <= i && i <= len(c.CommitPayloads)
 //@   ensures 0 <= count && count <= len(c.CommitPayloads)
 //@   modifies nothing
 //@ func (*Context).CountFailed
 //@   requires wf()
-//@   loop 1: invariant 0 <= count && count <= i
+//@   loop 1: invariant 0 <= count && count <= i && i <= len(c.LastSeenMessage)
 //@   ensures 0 <= count && count <= len(c.LastSeenMessage)
 //@   modifies nothing
 
@@ -529,18 +529,14 @@ package dbft
 //@        && gTimerD == self.maxTimePerBlock - self.timePerBlock && gTimerH == self.BlockIndex && gTimerV == self.ViewNumber && self.ViewNumber == old(self.ViewNumber))
 //@   requires [C13] @silent notWatchOnly()
 //@   requires self.MyIndex == self.PrimaryIndex && !rsor()
-//@   wraps d.ViewNumber+1 unless aview()
-//@   wraps d.timePerBlock<<(d.ViewNumber+1) unless aview()
+//@   wraps * unless aview()
 //@ func (*DBFT).sendChangeView
 //@   use U
 //@   use UNDECIDED
 //@   ensures [C12] @speaks implies(notWatchOnly(), gBroadcasts > old(gBroadcasts))
 //@   requires [C03] @lock !locked()
 //@   ensures [C10] @arms notWatchOnly() == false || gTimerArms > old(gTimerArms)
-//@   wraps d.ViewNumber+1 unless aview()
-//@   wraps c.ViewNumber+1 unless aview()
-//@   wraps newView+1 unless aview()
-//@   wraps d.timePerBlock<<(newView+1) unless aview()
+//@   wraps * unless aview()
 //@ func (*DBFT).sendPrepareResponse
 //@   requires wf() && slot() && prep()
 //@   requires [C13] @silent notWatchOnly()
@@ -611,14 +607,14 @@ package dbft
 //@   use U
 //@   use UNDECIDED
 //@   requires [C13] @silent notWatchOnly()
-//@   loop 1: invariant 0 <= count && count <= idx && implies(hasRequest, rsor())
+//@   loop 1: invariant 0 <= count && count <= idx && idx <= NN() && implies(hasRequest, rsor())
 //@   loop 1: invariant [C04] @counts count == count(j, 0, idx, curPrep(j))
 //@ func (*DBFT).checkPreCommit
 //@   use U
 //@   use UNDECIDED
 //@   requires [C07] @enabled amev()
 //@   requires rsor()
-//@   loop 1: invariant 0 <= count && count <= idx
+//@   loop 1: invariant 0 <= count && count <= idx && idx <= NN()
 //@   loop 1: invariant [C07,C02] @counts count == count(j, 0, idx, curP(j))
 //@   at call d.ProcessPreBlock: assert [C07,C02] @certificate !self.preBlockProcessed && preCommitCount() >= specM(NN()) && hasAllTx() && arg0 == self.preBlock && arg0 != nil
 //@   at call d.ProcessPreBlock: assert [C02] @verified verp()
@@ -628,7 +624,7 @@ package dbft
 //@   use U
 //@   use UNDECIDED
 //@   requires canMakeHeader()
-//@   loop 1: invariant 0 <= count && count <= idx
+//@   loop 1: invariant 0 <= count && count <= idx && idx <= NN()
 //@   loop 1: invariant [C02,C01] @counts count == count(j, 0, idx, curC(j))
 //@   at call d.ProcessBlock: assert [C05] @once !self.blockProcessed
 //@   at call d.ProcessBlock: assert [C02,C01] @certificate commitCount() >= specM(NN()) && hasAllTx() && arg0 == self.header && arg0 != nil && verc() && prop() && tip()
@@ -638,7 +634,7 @@ package dbft
 //@   use U
 //@   use UNDECIDED
 //@   requires [C03] @lock !locked()
-//@   loop 1: invariant 0 <= count && count <= idx
+//@   loop 1: invariant 0 <= count && count <= idx && idx <= NN()
 //@   loop 1: invariant [C04] @counts count == count(j, 0, idx, self.ChangeViewPayloads[j] != nil && self.ChangeViewPayloads[j].GetChangeView().NewViewNumber() >= view)
 
 // ---- dbft.go ----
@@ -697,11 +693,8 @@ package dbft
 //@   loop 4: invariant self.ViewNumber >= view && implies(view > 0, sameHeight()) && heapMono() && inboxOK(msgs) && gTimerArms >= old(gTimerArms) && gBroadcasts >= old(gBroadcasts)
 //@   loop 4: invariant [C15] @sameBase self.lastBlockTimestamp == ts
 //@   loop 4: invariant [C05] @cachePurged implies(view == 0, cachePurged()) && implies(old(cachePurged()), cachePurged())
-//@   wraps d.ViewNumber+1 unless aview()
-//@   wraps d.timePerBlock<<(d.ViewNumber+1) unless aview()
-//@   wraps timeout-diff unless aview()
-//@   wraps timeout-d.rttEstimates.avg/2 unless aview() && 0 <= self.rttEstimates.avg && self.rttEstimates.avg <= 2305843009213693952 && self.lastBlockTime != tzero()
-//@   wraps d.lastBlockIndex+1
+// A-VIEW / A-RTT: the timeout arithmetic is checked for overflow only under the view bound, a bounded RTT average and a non-zero last block time
+//@   wraps * unless aview() && 0 <= self.rttEstimates.avg && self.rttEstimates.avg <= 2305843009213693952 && self.lastBlockTime != tzero() && self.lastBlockIndex < 4294967295
 //@ func (*DBFT).OnTransaction
 //@   use U
 //@   requires tx != nil
@@ -867,6 +860,5 @@ package dbft
 //@   requires 0 <= r.idx && r.idx < 70
 //@   ensures 0 <= r.idx && r.idx < 70
 //@   modifies Context.rttEstimates.*
-//@   wraps 2*old
-//@   wraps t-old
-//@   wraps r.avg+(t-old)/time.Duration(len(r.times))
+// A-RTT: the arithmetic of the round-trip estimator is not checked for overflow (it would need round trips of 2^61 ns)
+//@   wraps *
